@@ -314,6 +314,93 @@ def registryLoad (file : Option Bytes) (utf8 : Bool) (parsed : Option Nat) : Res
       | some n => .ok n
       | none => .err ()
 
+/-! ### log format / destination (ant-logging) -/
+
+def bytesOf (s : String) : Bytes := s.toUTF8.toList.map UInt8.toNat
+
+/-- `LogFormat::parse_from_str`: exactly the literals of the `match`. -/
+def logFormatParse (s : Bytes) : Option String :=
+  (logFormatLiterals.find? fun l => bytesOf l == s)
+
+/-- `LogOutputDest::parse_from_str`: a literal of the `match`, otherwise a path (never an error for a
+literal; `data-dir` depends on the platform data directory only). -/
+def logDestParse (s : Bytes) : String :=
+  match logDestLiterals.find? fun l => bytesOf l == s with
+  | some l => l
+  | none => "path"
+
+/-! ### wallets folder (ant-cli wallet/fs.rs) -/
+
+def isPrefix : Bytes → Bytes → Bool
+  | [], _ => true
+  | _ :: _, [] => false
+  | p :: ps, c :: cs => p == c && isPrefix ps cs
+
+/-- `str::replace(pat, "")` for a non-empty pattern: remove the non-overlapping matches, left to right. -/
+def removeAllFuel (pat : Bytes) : Nat → Bytes → Bytes
+  | 0, s => s
+  | _, [] => []
+  | fuel + 1, c :: cs =>
+    if isPrefix pat (c :: cs) then removeAllFuel pat fuel ((c :: cs).drop pat.length)
+    else c :: removeAllFuel pat fuel cs
+
+def removeAll (pat s : Bytes) : Bytes := removeAllFuel pat (s.length + 1) s
+
+/-- `filter_wallet_file_extension`. -/
+def filterWalletExt (name : Bytes) : Bytes := removeAll walletExt name
+
+/-- `RewardsAddress::from_hex` (const-hex into 20 bytes): optional `0x`, then exactly 40 hex digits. -/
+def isAddressHex (s : Bytes) : Bool :=
+  let h := match s with
+    | 48 :: 120 :: rest => rest
+    | _ => s
+  h.length == 40 && h.all (fun c => (Hex.hexVal c).isSome)
+
+/-- Is a (UTF-8) directory entry listed by `get_wallet_files`? -/
+def walletListed (name : Bytes) : Bool := isAddressHex (filterWalletExt name)
+
+/-- `get_wallet_files`: positions of the entries listed; `names` pairs each raw name with
+`OsString::into_string().is_ok()`. -/
+def walletFiles (names : List (Bytes × Bool)) : List Nat :=
+  (List.range names.length).filter fun i =>
+    match names[i]? with
+    | some (n, utf8) => utf8 && walletListed n
+    | none => false
+
+/-- `get_wallet_selection`: `input` is what was typed at the prompt. -/
+def walletSelection (input : Bytes) (files : List Bytes) : Res Unit Bytes :=
+  match uFromStr 64 input with
+  | none => .err ()
+  | some idx =>
+    if selectLowReject.1.holds idx selectLowReject.2 || selectHighReject.holds idx files.length then .err () else
+    match selectIndexExpr.eval [idx] with
+    | .error p => .panic p
+    | .ok i =>
+      match files[i]? with
+      | none => .panic .sliceIndex
+      | some f => .ok (filterWalletExt f)
+
+/-- `load_private_key`: which of `<address>` / `<address>.encrypted` exist, the content of the file
+that is read, UTF-8 validity of that content, and `decrypt_private_key` for the encrypted file. -/
+def loadPrivateKey (plainExists encExists : Bool) (content : Bytes) (utf8 : Bool)
+    (decrypt : Bytes → Res Unit Bytes) : Res Unit Bytes :=
+  let isEncrypted := encExists && !plainExists
+  if !(plainExists || isEncrypted) then .err ()
+  else if !utf8 then .err ()
+  else if isEncrypted then decrypt content else .ok content
+
+/-- `load_wallet_from_address` (with an EVM network configured): `load_private_key`, then
+`Wallet::new_from_private_key` (abstract: `keyOk` gives the wallet's address for a valid key). -/
+def loadWallet (plainExists encExists : Bool) (content : Bytes) (utf8 : Bool)
+    (decrypt : Bytes → Res Unit Bytes) (keyOk : Bytes → Option Bytes) : Res Unit Bytes :=
+  match loadPrivateKey plainExists encExists content utf8 decrypt with
+  | .panic p => .panic p
+  | .err e => .err e
+  | .ok key =>
+    match keyOk key with
+    | some addr => .ok addr
+    | none => if loadWalletKeyChecked then .err () else .panic .unwrap
+
 /-- File content after `NodeRegistry::save` writes `new` over a file holding `old`: the whole content is
 replaced when the file is emptied first; otherwise the tail of a longer old content survives. -/
 def saveFile (old new : Bytes) : Bytes :=
